@@ -4,6 +4,7 @@
   usage: hydrv <component> < ops > results     (one result line per op line)
 -/
 import Hy.Drv.Frame
+import Hy.Drv.Ring
 
 open Hy.Drv
 
@@ -27,4 +28,6 @@ def main (args : List String) : IO UInt32 := do
   let stdout ← IO.getStdout
   match args with
   | ["frame"] => loopPure stdin stdout Frame.step; return 0
+  | ["ring"] => loopState stdin stdout Ring.ringStep Ring.ringInit; return 0
+  | ["pnq"] => loopState stdin stdout Ring.pnqStep Ring.pnqInit; return 0
   | _ => IO.eprintln "usage: hydrv <component>"; return 2
